@@ -35,6 +35,23 @@ type wBlock struct {
 var c20Words = []string{"alpha", "beta gamma", "Zürich", "中文", "x1", "end.", "a-b", "Q"}
 var c20Hard = []string{"2 * 3", "snake_case_name", "# not a heading", "a | b", "back`tick", "[link](x)", " lead", "trail ", "<tag>", "1. one", "- dash", "> quote", "star*", "\\slash", "tab end\t", "\ttab start", "nbsp end\u00a0"}
 
+// c20Atoms: texts are also composed of these, so that every metacharacter turns up at the start, in the middle and at
+// the end of a run, alone and doubled (a fixed vocabulary only has them where its author thought of putting them)
+var c20Atoms = []string{"`", "``", "*", "**", "_", "__", "~", "~~", "|", "\\", "[", "]", "(", ")", "<", ">", "#", "-", "+", "1.", "!", "&", "a", "b c", "Z", "é", "中", "0", "."}
+
+func composedText(r *rng) string {
+	for {
+		t := ""
+		for k := r.rangeI(1, 4); k > 0; k-- {
+			t += c20Atoms[r.intn(len(c20Atoms))]
+		}
+		// blanks at the ends of a block are not expressible in Markdown: the composed texts have none
+		if strings.TrimSpace(t) == t && t != "" {
+			return t
+		}
+	}
+}
+
 func genWRuns(r *rng, hard bool, feats map[string]int, plainOnly bool) []wRun {
 	var out []wRun
 	for i, n := 0, r.rangeI(1, 4); i < n; i++ {
@@ -42,6 +59,9 @@ func genWRuns(r *rng, hard bool, feats map[string]int, plainOnly bool) []wRun {
 		if hard && r.chance(35) {
 			t = c20Hard[r.intn(len(c20Hard))]
 			feats["text with Markdown metacharacters"]++
+		} else if hard && r.chance(25) {
+			t = composedText(r)
+			feats["text composed of metacharacters and letters"]++
 		}
 		run := wRun{text: t}
 		if !plainOnly {
